@@ -36,14 +36,14 @@ func lexCmp(a, b ver) int {
 var c18Gates = []ver{{5, 5, 0, 0}, {6, 5, 0, 0}, {7, 2, 0, 0}}
 
 func runC18(c *Ctx) {
-	c.Res.Rule = "version tuples from a dense grid around the gates 5.5.0, 6.5.0, 7.2.0 (each component in gate-1, gate, gate+1, 0, -1, large): " +
+	c.Res.Rule = "version tuples from a dense grid around the gates 5.5.0, 6.5.0, 7.2.0 (each component in gate-1, gate, gate+1, 0, -1, two- and three-digit values, large): " +
 		"every grid version against every gate and against itself, random pairs and triples; version strings: rendered well-formed " +
 		"(M, M.m, M.m.p, M.m.p-b, M.m.p-b-edition, editions containing '.' and '-') and a malformed stream. Distinct = distinct pair / string; " +
 		"non-trivial = the two versions differ in some component but agree on the major (the comparison has to look past the first field), or the string has >= 3 fields"
 	comp := [][]int{
 		{-1, 0, 4, 5, 6, 7, 8, math.MaxInt32, math.MaxInt64},
-		{-1, 0, 1, 2, 3, 4, 5, 6, math.MaxInt64},
-		{-1, 0, 1, 2, 9, math.MaxInt64},
+		{-1, 0, 1, 2, 3, 4, 5, 6, 10, 15, math.MaxInt64},
+		{-1, 0, 1, 2, 9, 10, 11, 100, math.MaxInt64},
 		{-1, 0, 1, 5325, math.MaxInt64},
 	}
 	var grid []ver
